@@ -1503,3 +1503,40 @@ srctie.wire(globals(), 'C03')
 # proved equal to the model in Props/SrcTieC03Mut.lean)
 from . import srctie
 srctie.wire_mut(globals(), 'C03')
+
+
+# --- FINAL claim texts (review round 2): the complete, final values; nothing above this block may override them
+REQUIRED_THEOREMS = [t for t in REQUIRED_THEOREMS if t not in ("Cv.C03.exponential_support", "Cv.C03.pareto_support",
+                                                               "Cv.C03.mvn_sample_spec", "Cv.C03.discrete_uniform_support")]
+REQUIRED_THEOREMS = REQUIRED_THEOREMS + [t for t in (
+    "Cv.C03.exponential_support_partial", "Cv.C03.pareto_support_partial", "Cv.C03.mvn_sample_spec_partial",
+    "Cv.C03.discrete_uniform_support_partial", "Cv.C03Support.ptrs_returns_witness", "Cv.C03Mvn.mvn_new_witness",
+) if t not in REQUIRED_THEOREMS]
+NOT_PROVED = [
+    "the LAWS of the rejection samplers: Ziggurat normal, Marsaglia–Tsang gamma (and so beta, chi-squared, t), PTRS Poisson, "
+    "BTPE binomial — measure theory over acceptance regions; decided only by the bit-exact tie + DKW search.  In particular "
+    "that MVN draws have covariance Sigma in distribution is not proved: proved is x = mu + L z with L L^T = Sigma "
+    "(mvn_sample_spec_partial + mvn_new_spec), z the dim Ziggurat draws",
+    "TERMINATION of the rejection loops (Ziggurat, Marsaglia–Tsang, PTRS, BTPE, Lemire) for every generator state: every "
+    "theorem about them is partial correctness (`_partial`: about every call that returns).  Proved termination: Poisson "
+    "multiplication method and binomial inversion for every state; the u = 0 redraw loop conditionally on the stream "
+    "containing a non-zero uniform within the fuel",
+    "kernel-evaluated returning states exist for Normal (fast path), Gamma (shape >= 1 and < 1), chi-squared, t, Beta, MVN "
+    "sample and MVN::new, Poisson PTRS (fast acceptance, rate 16); NONE for BTPE (only its set-up constants are instantiated) "
+    "and none for the Ziggurat wedge / tail branches: for those the hypothesis `the call returns` is witnessed only by the "
+    "run-time tie",
+    "that the Ziggurat table Y is exp(-x^2/2) at the layer edges: proved are only the internal relations of the tables "
+    "(K[i] = floor(2^24 W[i-1]/W[i]) exactly; equal layer areas to a relative 1e-9; 2^24 W[126] = R to 1e-9; Y strictly "
+    "decreasing).  An edit of K, or of Y / W / R beyond those tolerances breaks a proof; an edit that keeps them, or a "
+    "consistent regeneration of all tables, is seen only by the DKW search (the run-time tie regenerates the tables into the model)",
+    "that wyrand's outputs are uniform and independent (not a mathematical fact; searched by the DKW band)",
+    "floating-point rounding of the formulas (theorems are over the reals; the tie is bit-exact and the DKW search runs on "
+    "the f64 outputs)",
+    "source-level tie (model regenerated from the Rust source and proved equal): Uniform::sample; the whole bodies of "
+    "Exponential / Gumbel / Pareto::sample including the `while u == 0.` loop and the gamma boost loop (SrcTieC03Mut "
+    "*_sampleLoop_eq, Gamma_prepareLoop_eq) and their post-loop formulas; the Poisson / Binomial routing predicates; for "
+    "Student t and Beta only the QUOTIENT FORMULA AND THE DRAW ORDER (T_sample_eq / Beta_sample_eq take the gamma draws as "
+    "given values, so the parameters `Gamma::new(dof/2, 1)`, `Gamma::new(alpha, 1)` are NOT source-tied: they are tied at run "
+    "time).  RUN-TIME ONLY (hand model + bit-exact tie): wyrand, f64(), Lemire's u64_less_than, Ziggurat, the Marsaglia–Tsang "
+    "loop, PTRS, BTPE, Bernoulli, MVN, the bulk helpers",
+]
